@@ -1,0 +1,33 @@
+//go:build verif
+
+package gmtls
+
+// Contracts checked by /verif/gvc (s-expression syntax, see /verif/DESIGN.md).
+// This file contains comments only.
+//
+// The handshake message parsers are swept for run-time panics without annotation (invariants and termination
+// measures are inferred); only the parsers whose safety depends on a relation between two loops carry contracts.
+
+// certificateMsg.unmarshal validates the certificate_list in a first pass (counting the entries) and slices it
+// without checks in a second pass.  tls.cnt3 (specs/tls.spec) is the number of 24-bit-length-prefixed items of a
+// well-formed list, -1 for a malformed one: pass 1 establishes cnt3(data[7:]) = numCerts, pass 2 consumes it.
+
+//@ (defmacro c3 (d) (tls.cnt3 (row d) (off d) (len d)))
+//@ (func "(*certificateMsg).unmarshal" sweep
+//@   (uses "tls")
+//@   (requires size (bvslt (len data) #x0000000080000000))
+//@   (loop 1
+//@     (invariant window (and (= (obj d) (obj data)) (bvsle 0 (len d)) (= (len d) (zext certsLen 64))
+//@                            (= (bvadd (off d) (len d)) (bvadd (off data) (len data)))))
+//@     (invariant count (and (bvsle 0 numCerts) (bvsle numCerts (bvsub (len data) (len d)))))
+//@     (invariant frame (= (row d) (old (row data))))
+//@     (invariant list (=> (and (bvsge (c3 d) 0) (bvsle (c3 d) (len d))) (= (c3 d@pre) (bvadd numCerts (c3 d)))))
+//@     (unfold (tls.cnt3 (row d) (off d) (len d)))
+//@     (decreases (len d)))
+//@   (loop 2
+//@     (invariant range (and (bvsle 0 i) (bvsle i numCerts)))
+//@     (invariant window (and (= (obj d) (obj data)) (bvsle 0 (len d)) (bvsle (len d) (cap d))))
+//@     (invariant frame (= (row d) (old (row data))))
+//@     (invariant list (= (c3 d) (bvsub numCerts i)))
+//@     (unfold (tls.cnt3 (row d) (off d) (len d)))
+//@     (decreases (bvsub numCerts i))))
